@@ -5,7 +5,7 @@ import ast
 import re
 
 from .core import AnchorError, Unsupported
-from .e1_srcmodel import dotted, walk_no_nested, enclosing_stmt, parent, ancestors
+from .e1_srcmodel import dotted, walk_no_nested, enclosing_stmt, parent, ancestors, utext
 
 N2P = "pyyeti/nastran/n2p.py"
 OP2 = "pyyeti/nastran/op2.py"
@@ -208,7 +208,7 @@ def r1b_producer(ctx):
                         and isinstance(v.right.op, ast.Invert):
                     consts = [c.value for c in ast.walk(v.right) if isinstance(c, ast.Constant) and isinstance(c.value, int)]
                     lhs = ast.unparse(v.left).replace(" ", "")
-                    clr = (consts, lhs, ast.unparse(tg).replace(" ", ""), st)
+                    clr = (consts, lhs, utext(tg), st)
     if not ctx.check(sel is not None, "_rdop2uset selects the s-set DOF with mkusetmask('s')", fn):
         return
     ok = clr is not None and clr[0] == [sbit] and clr[1] == clr[2]
@@ -382,7 +382,7 @@ def r3_checked_lookup(ctx):
             ctx.check(ok, "mkdofpv: strict=True raises when a requested DOF is missing", top)
             if strict_if:
                 els = strict_if[0].orelse
-                txt = [ast.unparse(s).replace(" ", "") for s in els]
+                txt = [utext(s) for s in els]
                 inv = [t for t in txt if t.startswith(f"{chk}=~{chk}")]
                 fpv = [t for t in txt if t == f"{pv}={pv}[{chk}]"]
                 fdof = [t for t in txt if re.fullmatch(rf"(\w+)=\1\[{chk}\]", t) and not t.startswith(pv + "=")]
@@ -410,7 +410,7 @@ def r3_checked_lookup(ctx):
         ctx.check(ok, "mat_intersect: only exact matches are kept (np.where(haystack[pv2] == needles))", st)
         if ok:
             p1 = st.targets[0].id
-            txt = [ast.unparse(s).replace(" ", "") for s in walk_no_nested(fn) if isinstance(s, ast.Assign)]
+            txt = [utext(s) for s in walk_no_nested(fn) if isinstance(s, ast.Assign)]
             ok = f"{pv}={pv}[{p1}]" in txt
             ctx.check(ok, "mat_intersect: haystack positions are trimmed by the same match vector", st)
     # the keys that are searched and re-checked are byte views of both inputs in ONE common, lossless type
